@@ -26,6 +26,7 @@ EXPLANATION = (
     "removable component has a matching remove_request. NOT decided: that a handler which is reached changes only what "
     "it should, and status 'success' meaning the operation really succeeded (behavioural)."
 )
+TECHNIQUE = "static: CFG must-pass on the dispatcher, request-tree reconstruction from all add_request sites vs evaluated form_request path templates, purity closure of validators"
 ASSUMPTIONS = [
     "request managers are only populated through add_request (census of dynamic features enforced by C04/C14 rules)",
     "class-hierarchy analysis over-approximates dynamic dispatch",
